@@ -77,6 +77,12 @@ Att(rule, arg, prems, res) == [rule |-> rule, arg |-> arg, prems |-> prems, res 
 \* or its result is not a well-typed sequent (check_thm_type)
 Chk(th) == IF IsErrS(th) THEN ErrS ELSE IF SeqWellTyped(th) THEN th ELSE ErrS
 WT(t) == WellTyped(t)
+\* the two instantiation rules, also applied alone in one extra round (C01_Kernel.SaturateInst): they are the rules whose
+\* result depends on how hypotheses and proposition of ONE sequent are treated together
+InstAttempts(S) ==
+     UNION { { Att("substitution", ArgI(i), <<th>>,
+                     IF \A k \in 1..Len(i.sv) : WT(i.sv[k][2]) THEN Chk(Substitution(i, th)) ELSE ErrS) : i \in InstPool } : th \in S }
+  \cup UNION { { Att("subst_type", ArgY(ti), <<th>>, Chk(SubstType(ti, th))) : ti \in TyInstPool } : th \in S }
 Attempts(S) ==
      { Att("assume", ArgT(a), <<>>, Chk(Assume(a))) : a \in AssumePool }
   \cup { Att("reflexive", ArgT(a), <<>>, Chk(Reflexive(a))) : a \in ReflPool }
@@ -88,9 +94,7 @@ Attempts(S) ==
   \cup UNION { { Att("forall_intr", ArgT(v), <<th>>, Chk(ForallIntr(v, th))) : v \in VarPool } : th \in S }
   \cup UNION { { Att("forall_elim", ArgT(s), <<th>>, IF WT(s) THEN Chk(ForallElim(s, th)) ELSE ErrS) : s \in ElimPool }
                  : th \in { x \in S : IsAll(x.c) } }
-  \cup UNION { { Att("substitution", ArgI(i), <<th>>,
-                     IF \A k \in 1..Len(i.sv) : WT(i.sv[k][2]) THEN Chk(Substitution(i, th)) ELSE ErrS) : i \in InstPool } : th \in S }
-  \cup UNION { { Att("subst_type", ArgY(ti), <<th>>, Chk(SubstType(ti, th))) : ti \in TyInstPool } : th \in S }
+  \cup InstAttempts(S)
   \cup UNION { { Att("implies_elim", ArgT(NoArg), <<t1, t2>>, Chk(ImpliesElim(t1, t2))) : t2 \in S } : t1 \in { x \in S : IsImp(x.c) } }
   \cup UNION { { Att("equal_elim", ArgT(NoArg), <<t1, t2>>, Chk(EqualElim(t1, t2))) : t2 \in S } : t1 \in { x \in S : IsEq(x.c) } }
   \cup UNION { { Att("equal_intr", ArgT(NoArg), <<t1, t2>>, Chk(EqualIntr(t1, t2))) : t2 \in { x \in S : IsImp(x.c) } } : t1 \in { x \in S : IsImp(x.c) } }
